@@ -316,6 +316,7 @@ def run_property(chk, prop, laws, quick_gen=120, thorough_gen=3000, scns=None, n
     if n_rand is None:
         n_rand = 4 if quick else 40
     lines, line_meta = [], []
+    pending_runs = []
     for scn in scns:
         hand = not scn.name.startswith("gen")
         scheds = ["canonical"] + ["random"] * (n_rand if hand else 1)
@@ -365,26 +366,11 @@ def run_property(chk, prop, laws, quick_gen=120, thorough_gen=3000, scns=None, n
             # executions that never become terminal (hand scenarios are all terminating)
             if fv.get("status") not in ("SUCCEEDED", "FAILED") and s.steps < 2500:
                 probs.append(("C02.terminal_reached", {"final": fv, "volatile": s.snapshot_volatile()}))
-            if expect is not None:
-                probs += expect(scn, s, ea, pl, fv)
-            multi = False
-            if skip_multi and not hand and pl is not None:
-                # several branches of one fan-out failing at once is C06's family, not this property's
-                from props import c01
-                a = common.driver([c01.model_line(scn.machine, scn.data, ea, pl.oracle())])[0].split("\t")
-                if a[0] == "ok":
-                    mo = json.loads(a[1])
-                    multi = bool(mo.get("multiFail"))
-            if multi:
-                chk.dist("skipped.multiple_failures(C06)")
-                s.close()
-                continue
-            seen = set()
-            for law, detail in probs:
-                if not any(law.startswith(l) for l in laws) or law in seen:
-                    continue
-                seen.add(law)
-                chk.report("impl-violates-law", case, impl=detail, law=law, classify=None)
+            # the reference semantics of the whole run is asked from the driver once, after all runs
+            pending_runs.append({"probs": probs, "case": case, "hand": hand,
+                                 "mline": (__import__("props.c01", fromlist=["x"]).model_line(scn.machine, scn.data, ea, pl.oracle())
+                                           if (pl is not None and (expect is not None or (skip_multi and not hand))) else None),
+                                 "pre": expect.pre(scn, s, ea, pl, fv) if expect is not None else None, "scn": scn, "fv": fv})
             # Lean recognisers over what the engine did
             if scn.sm_type == "STANDARD":
                 if "C09" in laws:
@@ -401,6 +387,27 @@ def run_property(chk, prop, laws, quick_gen=120, thorough_gen=3000, scns=None, n
                     lines.append("engine\tnotes\t" + pj([n["detail"]["status"] for n in mon.notes]))
                     line_meta.append(("notes", case, [n["detail"]["status"] for n in mon.notes]))
             s.close()
+    # --- outcome laws that need the reference semantics: one batched driver call
+    mlines = [pr["mline"] for pr in pending_runs if pr["mline"]]
+    manswers = iter(common.driver(mlines, shards=8))
+    for pr in pending_runs:
+        mo = None
+        if pr["mline"]:
+            a = next(manswers).split("\t")
+            if a[0] == "ok":
+                mo = json.loads(a[1])
+        probs = pr["probs"]
+        if expect is not None:
+            probs = probs + expect.post(pr["scn"], pr["fv"], pr["pre"], mo)
+        if skip_multi and not pr["hand"] and mo is not None and mo.get("multiFail"):
+            chk.dist("skipped.multiple_failures(C06)")
+            continue
+        seen = set()
+        for law, detail in probs:
+            if not any(law.startswith(l) for l in laws) or law in seen:
+                continue
+            seen.add(law)
+            chk.report("impl-violates-law", pr["case"], impl=detail, law=law, classify=None)
     answers = common.driver(lines, shards=8)
     seen_ord = set()
     for a, (kind, case, extra) in zip(answers, line_meta):
